@@ -80,6 +80,13 @@ CLAIMED = {
              "refuted: later refusals leave an empty directory). Option table regenerated from parse_args. Tied by cli.plan correspondence "
              "over the option lattice in fresh subprocesses; exported CSV/SQLite rows compared with API iteration.",
         design="§9 C12", note=NOTE + "partial: row values are C11; text/XLSX compared at entry level; multi-input runs at validation level; open findings C12-F1..F5.", technique="Lean 4 theorems over hand-written CLI model + AST-translated option table (translator options.py) + subprocess correspondence"),
+    "C18": dict(
+        text="Theorems bounding the model's loops independently of damaged size fields: freeblock walk ends within 65537 steps with strictly "
+             "ascending offsets, accepted overflow chains visit pairwise distinct pages and never exhaust their fuel, the expected-overflow count "
+             "is a closed form; recursion through child / trunk pointers is bounded by the recursion-limit parameter (RecursionError). Tied by "
+             "db.dump correspondence on targeted corruptions of every link / count / size field, pairs, truncations and bit flips, each parsed "
+             "in a worker under a time limit (max(10 s, 200 x clean parse)) and an address-space limit.",
+        design="§9 C18", note=NOTE + "partial: seconds and RSS are measured, not proved; cost of recursion-limit-bounded walks (cyclic freelist trunks / child pointers) is large but finite; WAL / signature / carving stages are not yet in the damaged-input pipeline.", technique=T + "; targeted byte-level corruption with resource-limited workers"),
     "C06": dict(
         text="Theorems on the page-layout check: stable sort, telescoping identity, every SQLite-well-formed layout is accepted with "
              "fragment total = header count, accepted layouts tile [content offset, page end) without overlap or gap, strict checking "
